@@ -8,6 +8,7 @@ From Coq Require Import List ZArith String Bool Permutation.
 From IprV Require Import GenTypes GenCheck RBModel RBProofs Unify Arena ArenaProofs Memory.
 From IprV.gen Require Import GenStore.
 From IprV Require StateSpace.
+From IprV.gen Require GenAccess.
 Import ListNotations.
 Local Open Scope string_scope.
 
@@ -56,6 +57,13 @@ Theorem c19_state_is_what_the_model_abstracts :
   StateSpace.state_as_modelled (StateSpace.string_pool_state ++ StateSpace.tree_state) = true.
 Proof. vm_compute. reflexivity. Qed.
 
+(* The library swallows no exception: every catch clause in it ends by throwing again (table regenerated from the source; at the
+   time of writing the library has no catch clause at all), so storage released while an exception passes is not kept in use. *)
+Theorem c19_library_swallows_no_exception :
+  forallb (fun r => snd r) GenAccess.gen_catch_clauses = true.
+Proof. vm_compute. reflexivity. Qed.
+
+Print Assumptions c19_library_swallows_no_exception.
 Print Assumptions c19_state_is_what_the_model_abstracts.
 Print Assumptions c19_arena_chain_complete.
 Print Assumptions c19_tree_holds_exactly_allocated.
